@@ -299,4 +299,16 @@ theorem aligned_moveAssign {p p' : Pool} {self other c1 c2 : Cont}
 theorem aligned_empty (k d i : Nat) (sx : List Nat) : AlignedL (Cont.empty k d i sx).owned := by
   unfold Cont.owned Cont.empty; exact AlignedL.nil
 
+theorem aligned_convertFrom {p p' : Pool} {self other c' : Cont} {so : Bool}
+    (h : Cont.convertFrom p self other so = .ok (p', c')) (hs : AlignedL self.owned) : AlignedL c'.owned := by
+  unfold Cont.convertFrom at h
+  split at h
+  · unfold Cont.svConvert at h
+    split at h
+    · cases h
+    · split at h
+      · exact aligned_cloneFrom h
+      · exact aligned_cloneCross h
+  · exact aligned_assign h hs
+
 end FeatModel.Pool
